@@ -311,7 +311,7 @@ CHECKS = {
         "engine": "E1 simlibc (clock, file mtimes, randomness) over real files",
         "technique": "deterministic simulation: seeded engine histories with backups at quiescent points on a simulated clock and simulated file mtimes, process crashes rebuilt from the storage journal and failing storage calls between backups; every backup and point-in-time target restored into an empty directory and the real engine started from it; seeded single-byte damage / truncation of archives and metadata; retention over synthetic timelines at a simulated now",
         "rule": "4 of 5 runs: history of 5-30 steps (8-60 thorough) over 3-8 ids: insert / delete / batch delete / metadata update, explicit snapshots, automatic snapshots (interval 2/3/5), WAL rotation limits 1 B / 300 B / 2 KiB / unbounded (compaction after snapshots), restarts, clock gaps {0,1,2,5,3600} s, "
-                "full backups and incremental backups on the latest backup / latest full / an arbitrary earlier backup; crash steps (the data directory is journaled: the directory is rebuilt as of 0-24 storage effects before the end, never before the latest backup, kill or torn inside the write it dies in, file times as of the last effect per file; half of the time a full backup of the directory as the crash left it, expected collection = what the following start gives); operations (insert / delete / snapshot) under failing storage calls as in C03 (only the backups taken afterwards are judged; in a history with a fired fault a backup may equal the live census or what a start from a copy of the source gives); backend and tiered engines, fsync always. Expected collection of a backup = live census when it was taken. Judged: (1) every backup (first 8) restored into an empty directory, engine started (strict recovery), census == expected; "
+                "full backups and incremental backups on the latest backup / latest full / an arbitrary earlier backup; crash steps (the data directory is journaled: the directory is rebuilt as of 0-24 storage effects before the end, never before the latest backup, kill or torn inside the write it dies in, file times as of the last effect per file; half of the time a full backup of the directory as the crash left it, expected collection = what the following start gives); operations (insert / delete / snapshot / engine start, a failed start being followed by a fault-free one) under failing storage calls as in C03 (only the backups taken afterwards are judged; in a history with a fired fault a backup may equal the live census or what a start from a copy of the source gives); backend and tiered engines, fsync always. Expected collection of a backup = live census when it was taken. Judged: (1) every backup (first 8) restored into an empty directory, engine started (strict recovery), census == expected; "
                 "(2) point-in-time targets at every backup timestamp and +-1 s: census equals an eligible backup (rooted in a newest full backup <= target, chain <= target, not superseded by a strictly newer eligible child), refusal only when no full backup is old enough; "
                 "(3) a refused incremental ('No new WAL files') only when the live census still equals the parent's; (4) non-empty target without confirmation: refused and byte-identical; dry run: byte-identical; "
                 "(5) 24 (60 thorough) damages of a chain's archive or metadata file (1/6 truncations at 0 / len-1 / len/2 / random, else one bit flipped at a structural offset (first 48 bytes) or a random offset), restore with confirmation into a populated target: refused with the target byte-identical, or accepted with census == expected. "
